@@ -50,6 +50,9 @@ type c13Case struct {
 	Masks bool `json:",omitempty"`
 	// how many times the sequence (programs, Reset, check) is gone through on the same container (0 = once)
 	Rounds int `json:",omitempty"`
+	// the container init runs with RLIMIT_NOFILE 64 and the first program builds a 200-level directory chain in the first
+	// tmpfs: removing it needs a descriptor per level, so Reset cannot empty that mount - it has to say so
+	LowNoFile bool `json:",omitempty"`
 }
 
 // directories every program sprays (besides the tmpfs mounts)
@@ -83,6 +86,19 @@ func c13GenCase(rt *rapid.T) c13Case {
 		}
 		prog.How = rapid.SampledFrom([]string{"", "", "", "after-exec", "after-exec-syncfail", "after-exec-syncfail", "before-exec-syncfail", "cancelled"}).Draw(rt, "how")
 		c.Programs = append(c.Programs, prog)
+	}
+	if rapid.IntRange(0, 5).Draw(rt, "lownofile") == 0 {
+		c.LowNoFile = true
+		if len(c.Mounts) < 2 {
+			c.Mounts = all[:2]
+			for i := range c.Programs {
+				for len(c.Programs[i].PerMount) < 2 {
+					c.Programs[i].PerMount = append(c.Programs[i].PerMount, nil)
+				}
+			}
+		}
+		c.Programs[0].PerMount[0] = append(c.Programs[0].PerMount[0], c13Entry{Kind: "deep", N: 200})
+		c.Programs[0].How = ""
 	}
 	return c
 }
@@ -212,6 +228,12 @@ func c13Run(c c13Case, rec *vh.Recorder) error {
 	defer env.Destroy()
 	initPid := container.VerifInitPid(env)
 	desc := fmt.Sprintf("%+v", c)
+	if c.LowNoFile {
+		lim := syscall.Rlimit{Cur: 64, Max: 64}
+		if err := unixPrlimit(initPid, syscall.RLIMIT_NOFILE, &lim, nil); err != nil {
+			return vh.Infraf("prlimit on the init: %v", err)
+		}
+	}
 	created, before := 0, 0
 	// one round = the programs run, Reset, and the two views are checked; a pooled container goes through many rounds
 	round := func(rn int) (bool, error) {
@@ -280,6 +302,9 @@ func c13Run(c c13Case, rec *vh.Recorder) error {
 			return false, vh.Violf("C13:reset-hangs", "Reset did not return in 60s; %s", desc)
 		}
 		if err != nil {
+			if c.LowNoFile {
+				rec.Class("init-short-of-descriptors+200-level-chain(Reset reports the failure)", 1)
+			}
 			rec.Class("reset-returned-error(not judged): "+firstWords(err.Error(), 6), 1)
 			rec.Case(c, false, "reset-error")
 			return false, nil
@@ -389,6 +414,9 @@ func c13Run(c c13Case, rec *vh.Recorder) error {
 		}
 	}
 	classes = append(classes, fmt.Sprintf("cred=%v mounts=%d", c.Cred, len(c.Mounts)), fmt.Sprintf("resets-on-one-container=%d", rounds))
+	if c.LowNoFile {
+		classes = append(classes, "init-short-of-descriptors+200-level-chain(Reset succeeded anyway)")
+	}
 	if c.Masks {
 		classes = append(classes, "masked-directories+spray")
 	}
@@ -584,6 +612,19 @@ func TestC13Memfd(t *testing.T) {
 	}
 	ce := &c09Env{}
 	defer ce.close()
+	runM := func(c c13MCase) error { return c13MemfdRun(c, rec, ce, probeBytes) }
+	defer func() {
+		// one large executable per run (a statically linked interpreter with its runtime is that big): above any
+		// power-of-two cap somebody might have in mind
+		if os.Getenv("VERIF_REPLAY") == "" {
+			for _, big := range []c13MCase{{Size: 128<<20 + 1, Reader: "file", Name: "big"}, {Size: 64<<20 + 4097, Reader: "pipe", Name: "big"}} {
+				if err := runM(big); err != nil {
+					vh.Report(t, rec, big, err)
+				}
+			}
+			rec.Write()
+		}
+	}()
 	vh.Check(t, rec, func(rt *rapid.T) c13MCase {
 		c := c13MCase{Reader: rapid.SampledFrom([]string{"bytes", "file", "pipe", "onebyte", "failing", "data+eof", "data+eof-chunked", "section", "stutter", "buffer", "limited-file", "strings", "section-bounded", "bytes", "section-bounded"}).Draw(rt, "reader")}
 		c.Size = rapid.OneOf(rapid.SampledFrom([]int{0, 1, 4095, 4096, 4097, 8191, 8192, 8193, 65535, 65536, 65537}), rapid.IntRange(0, 20000), rapid.IntRange(0, 1<<20), rapid.SampledFrom([]int{4 << 20, 8<<20 + 3})).Draw(rt, "size")
@@ -608,7 +649,15 @@ func TestC13Memfd(t *testing.T) {
 			}
 		}
 		return c
-	}, func(c c13MCase) error {
+	}, func(c c13MCase) error { return runM(c) })
+}
+
+func init() { c13MemfdRun = c13MemfdRunImpl }
+
+var c13MemfdRun func(c c13MCase, rec *vh.Recorder, ce *c09Env, probeBytes []byte) error
+
+func c13MemfdRunImpl(c c13MCase, rec *vh.Recorder, ce *c09Env, probeBytes []byte) error {
+	{
 		want := c13Content(c.Size)
 		if c.Exec {
 			want = probeBytes
@@ -772,5 +821,5 @@ func TestC13Memfd(t *testing.T) {
 			rec.Sample(c)
 		}
 		return nil
-	})
+	}
 }
